@@ -19,6 +19,27 @@ def parsePairs : Nat → List String → Option (List Pair × List String)
     some ((kb, vb) :: ps, r')
   | _ + 1, _ => none
 
+
+/-! the optional response head in front of the events: `rp <status> <ver> <n> (<name> <value>){n}` -/
+
+def verOf : String → Option Ver
+  | "h09" => some .h09 | "h10" => some .h10 | "h11" => some .h11 | "h2" => some .h2 | "h3" => some .h3
+  | _ => none
+
+def verTok : Ver → String
+  | .h09 => "h09" | .h10 => "h10" | .h11 => "h11" | .h2 => "h2" | .h3 => "h3"
+
+def parseHead (ts : List String) : Option (Option RespHead × List String) :=
+  match ts with
+  | "rp" :: st :: ver :: n :: r => do
+    let st ← nat? st
+    let v ← verOf ver
+    let n ← nat? n
+    let (ps, r') ← parsePairs n r
+    some (some { status := st, version := v, headers := ps }, r')
+  | "rp" :: _ => none
+  | _ => some (none, ts)
+
 def parseEvsAux : Nat → List String → Option (List BodyEv)
   | _, [] => some []
   | 0, _ => none
@@ -104,6 +125,10 @@ def insertByName (p : Pair) : List Pair → List Pair
 
 def sortByName (l : List Pair) : List Pair := l.foldr insertByName []
 
+/-- the head as the harness prints it: headers stably sorted by name -/
+def renderHead (h : RespHead) : List String :=
+  ["rp", toString h.status, verTok h.version, toString h.headers.length] ++ renderPairs (sortByName h.headers)
+
 /-- canonical form of trailers frames: sorted by name, value order kept -/
 def canonOuts : List Out → List Out
   | [] => []
@@ -180,6 +205,60 @@ def clientVerdict (evs : List BodyEv) (obs : List Out) (busy : Bool) (ae : Nat) 
                     obs.getLast? == some .err || dataOf obs == msgBytes)]
   firstFail [live, v]
 
+
+/-! ### the response head (cases with `rp`) -/
+
+def contentTypeName : Bytes := str "content-type"
+
+def kindOf (h : RespHead) : Spec.GrpcWeb.RespKind :=
+  Spec.GrpcWeb.respKind (Spec.GrpcWeb.fieldOf contentTypeName h.headers)
+
+def withoutContentType (h : List Pair) : List Pair := h.filter (fun p => !(p.1 == contentTypeName))
+
+/-- what the layer may do to the head: the status and every header other than `content-type`
+reach the caller as the server sent them (the content type may be rewritten; the version is not
+the property's business) -/
+def headVerdict (sent seen : RespHead) : String :=
+  verdict [("status-handed-on", seen.status == sent.status),
+           ("headers-handed-on",
+              Spec.GrpcWeb.sameTrailers (withoutContentType seen.headers) (withoutContentType sent.headers)
+              && (withoutContentType seen.headers).length == (withoutContentType sent.headers).length)]
+
+/-- a grpc-web body: message frames, then at most one trailers frame (last) with a well-formed block -/
+def isWebBody (raw : Bytes) : Bool :=
+  match Spec.GrpcWeb.frameStructure raw with
+  | none => false
+  | some items =>
+    let trs := items.filter (fun i => i.1 == 128)
+    let trailersLast := (items.dropWhile (fun i => i.1 != 128)).length ≤ 1
+    trs.length ≤ 1 && trailersLast && trs.all (fun i =>
+      match Spec.GrpcWeb.parseBlock i.2 with
+      | some ps => ps.all (fun p => Spec.GrpcWeb.fieldNameOk p.1 && Spec.GrpcWeb.fieldValueOk p.2)
+      | none => false)
+
+/-- Body verdict by the kind of response the content-type announces.
+binary (`application/grpc-web[+format]`, any case, any parameters; or no content-type): the
+property in full.  text (`application/grpc-web-text[+format]`): the client never asks for that form
+(no `accept`); if the body is the base64 form of a grpc-web body the layer must either decode it
+in full or report an error — never a clean end that hides messages or the status.  other: not a
+grpc-web response; only liveness. -/
+def respBodyVerdict (h : RespHead) (evs : List BodyEv) (obs : List Out) (busy : Bool) (ae : Nat) : String :=
+  let live := verdict [("no-busy-loop", !busy && ae ≤ 8)]
+  match kindOf h with
+  | .binary => clientVerdict evs obs busy ae
+  | .other => live
+  | .text =>
+    let es := evs.filter notPending
+    if es.any (fun e => !isData e) then live
+    else
+      match Spec.GrpcWeb.b64StreamDecode (flat es) with
+      | none => live
+      | some raw =>
+        if isWebBody raw then
+          firstFail [live, verdict [("text-body-error-or-decoded",
+            obs.getLast? == some .err || clientVerdict [.data raw] obs busy ae == "ok")]]
+        else live
+
 /-! ### the caller's view (`st` cases) -/
 
 def renderSt (st : Status.St) : List String :=
@@ -202,9 +281,17 @@ def renderUnary : WebCaller.Unary → List String
   | .missing => ["err", "13", hex WebCaller.missingMessage, "x", "0"]
   | .panic => ["panic"]
 
+
+/-- a rendered metadata map equals `expected`, leaving the `content-type` entry aside (the layer
+may rewrite the response's content type; the property does not say) -/
+def sameButContentType (toks : List String) (expected : HMap) : Bool :=
+  match HMap.parseRendered toks with
+  | some (m, []) => HMap.render (HMap.remove (str "content-type") m) == HMap.render (HMap.remove (str "content-type") expected)
+  | _ => false
+
 /-- clauses for "the caller was given status tokens `toks` where the server's trailers were `t`
 and said a failing status" (as C04's reading verdict, against `Spec.Status.read`) -/
-def statusClauses (t : HMap) (r : Spec.Status.Reading) (toks : List String) : List (String × Bool) :=
+def statusClauses (t : HMap) (r : Spec.Status.Reading) (toks : List String) (hdrs : HMap := []) : List (String × Bool) :=
   match toks with
   | c :: m :: d :: md =>
     match nat? c, unhex m, unhex d with
@@ -214,8 +301,10 @@ def statusClauses (t : HMap) (r : Spec.Status.Reading) (toks : List String) : Li
         [("status-code-is-the-servers", c == r.code), ("status-message-is-the-servers", m == rm),
          ("status-details-are-the-servers", d == rd),
          ("other-trailers-are-metadata",
-            md == HMap.render (HMap.removeAll [Spec.Status.statusName, Spec.Status.messageName,
-                                               Spec.Status.detailsName] t))]
+            let own := HMap.removeAll [Spec.Status.statusName, Spec.Status.messageName,
+                                       Spec.Status.detailsName] t
+            -- (a unary call may add the response headers to the status it hands out)
+            md == HMap.render own || (!hdrs.isEmpty && sameButContentType md (HMap.extend own hdrs)))]
       | _, _ => [("undecodable-field-gives-error-status", c != Spec.Status.OK)]
     | _, _, _ => [("observed-parses", false)]
   | _ => [("observed-parses", false)]
@@ -231,7 +320,7 @@ def splitStreamObs (obs : List String) : Option (List String × List String) :=
   | _ => none
 
 /-- spec verdict for the caller's view.  `unary`: the call was `Grpc::unary`. -/
-def callerVerdict (unary : Bool) (evs : List BodyEv) (obs : List String) : String :=
+def callerVerdict (unary : Bool) (evs : List BodyEv) (obs : List String) (hdrs : HMap := []) : String :=
   if obs == ["panic"] || obs == ["hang"] || obs == ["runaway"] then "fail:never-panics-or-hangs"
   else
   let es := evs.filter notPending
@@ -283,10 +372,16 @@ def callerVerdict (unary : Bool) (evs : List BodyEv) (obs : List String) : Strin
                     verdict [("unary-without-message-is-an-error", isErr)]
                   else
                     verdict [msgClause, ("ok-status-is-success", !isErr),
-                             ("trailers-are-the-servers", fin.drop 1 == HMap.render t)]
+                             ("trailers-are-the-servers",
+                                -- unary: the response's metadata = its headers, then the trailers
+                                if unary && !hdrs.isEmpty then
+                                  -- (a content-type among the TRAILERS replaces the header's)
+                                  if HMap.hasKey (str "content-type") t then fin.drop 1 == HMap.render (HMap.extend hdrs t)
+                                  else sameButContentType (fin.drop 1) (HMap.extend hdrs t)
+                                else fin.drop 1 == HMap.render t)]
                 else
                   verdict ([msgClause, ("failing-status-reaches-the-caller", isErr)] ++
-                           statusClauses t r (fin.drop 1))
+                           statusClauses t r (fin.drop 1) (if unary then hdrs else []))
             | none =>
               -- malformed block: whatever can be read of it must not turn a failure into success
               match Spec.GrpcWeb.readBlockLoose block with
@@ -299,41 +394,80 @@ def callerVerdict (unary : Bool) (evs : List BodyEv) (obs : List String) : Strin
 
 def handle (case obs : List String) : String × String :=
   match case with
-  | "cl" :: evToks =>
+  | "cl" :: toks =>
+    match parseHead toks with
+    | none => bad
+    | some (head?, evToks) =>
     match parseEvs evToks with
     | some evs =>
-      let m := canonOuts (Fixed.observe evs)
-      let exactLine := join (renderOuts m ++ ["ae", "0"])
+      let sent : RespHead := head?.getD {}
+      let (mhead, mouts) := respond sent evs
+      let m := canonOuts mouts
+      let headToks := if head?.isSome then renderHead mhead else []
+      let exactLine := join (headToks ++ renderOuts m ++ ["ae", "0"])
+      -- the observed head (only printed for cases with a head) and the rest
+      let obsSplit : Option (Option RespHead × List String) :=
+        if head?.isSome then
+          match parseHead obs with
+          | some (some h, r) => some (some h, r)
+          | _ => none
+        else some (none, obs)
       -- `C17_lossless` promises the message bytes, not where the data frames are cut: model and
-      -- observation are compared as (concatenated data, trailers frames, terminal frame, `ae`);
-      -- a run that ends in an error only as "ends in an error".  When they agree in that form
+      -- observation are compared as (head, concatenated data, trailers frames, terminal frame,
+      -- `ae`); a run that ends in an error only as "ends in an error".  When they agree in that form
       -- the driver answers with the observed tokens.  The verdict sees the exact observation.
-      let model := match splitAe obs with
-        | some (frames, 0) =>
-          match parseOuts frames with
-          | some o =>
-            let same :=
-              if m.getLast? == some .err then o.getLast? == some .err
-              else dataOf m == dataOf o && m.filter (!isDataOut ·) == o.filter (!isDataOut ·)
-            if same then join obs else exactLine
-          | none => exactLine
-        | _ => exactLine
-      let v := match splitAe obs with
-        | some (frames, ae) =>
-          let busy := frames.getLast? == some "busy" || frames.getLast? == some "hang" || frames.getLast? == some "panic"
-          match parseOuts (if busy then frames.dropLast else frames) with
-          | some o => clientVerdict evs o busy ae
+      let model := match obsSplit with
+        | some (ohead, rest) =>
+          match splitAe rest with
+          | some (frames, 0) =>
+            match parseOuts frames with
+            | some o =>
+              let same :=
+                if m.getLast? == some .err then o.getLast? == some .err
+                else dataOf m == dataOf o && m.filter (!isDataOut ·) == o.filter (!isDataOut ·)
+              let sameHead := obs.take headToks.length == headToks && (ohead.isSome == head?.isSome)
+              if same && sameHead then join obs else exactLine
+            | none => exactLine
+          | _ => exactLine
+        | none => exactLine
+      let v := match obsSplit with
+        | some (ohead, rest) =>
+          match splitAe rest with
+          | some (frames, ae) =>
+            let busy := frames.getLast? == some "busy" || frames.getLast? == some "hang" || frames.getLast? == some "panic"
+            match parseOuts (if busy then frames.dropLast else frames) with
+            | some o =>
+              match head?, ohead with
+              | some h, some oh => firstFail [headVerdict h oh, respBodyVerdict h evs o busy ae]
+              | _, _ => clientVerdict evs o busy ae
+            | none => "fail:unreadable-observation"
           | none => "fail:unreadable-observation"
         | none => "fail:unreadable-observation"
       (model, v)
     | none => bad
-  | "st" :: k :: evToks =>
+  | "st" :: k :: toks =>
+    match parseHead toks with
+    | none => bad
+    | some (head?, evToks) =>
     match parseEvs evToks, k == "u" || k == "s" with
     | some evs, true =>
-      let outs := Fixed.observe evs
-      let model := if k == "u" then join (renderUnary (WebCaller.unary outs))
-                   else join (renderStreamed (WebCaller.streaming outs))
-      (model, callerVerdict (k == "u") evs obs)
+      match head? with
+      | none =>
+        let outs := Fixed.observe evs
+        let model := if k == "u" then join (renderUnary (WebCaller.unary outs))
+                     else join (renderStreamed (WebCaller.streaming outs))
+        (model, callerVerdict (k == "u") evs obs)
+      | some h =>
+        let (mhead, outs) := respond h evs
+        let model := if k == "u" then join (renderUnary (WebCaller.unaryAt mhead outs))
+                     else join (renderStreamed (WebCaller.streamingAt mhead outs))
+        -- the property speaks about grpc-web responses (HTTP 200, a binary grpc-web content type
+        -- or none); for the rest only: no panic, no hang
+        let v :=
+          if h.status == 200 && kindOf h == .binary then callerVerdict (k == "u") evs obs h.headers
+          else if obs == ["panic"] || obs == ["hang"] || obs == ["runaway"] then "fail:never-panics-or-hangs"
+          else "ok"
+        (model, v)
     | _, _ => bad
   | "asis" :: evToks =>
     match parseEvs evToks with
